@@ -28,6 +28,11 @@ type Part struct {
 	Workers  int           // worker processes (default 16; 1: in one process)
 	Budget   time.Duration // wall-clock cap; hitting it yields exhaustive:false, not a failure
 	Env      []string      // extra environment for workers
+	// CrashIsolate: the worker records the vector of the execution in progress,
+	// so that an unrecoverable crash of the worker process inside the library
+	// (a panic in a goroutine the library spawned, a runtime fatal error) is
+	// reported as a violation with that vector instead of an engine error.
+	CrashIsolate bool
 }
 
 // Prop is a registered property check.
@@ -150,6 +155,19 @@ func worker(id, tier, part string, i, n int, outdir string) int {
 		ns, _ := strconv.ParseInt(d, 10, 64)
 		opt.Deadline = time.Unix(0, ns)
 	}
+	base := filepath.Join(outdir, fmt.Sprintf("%s-%d", part, i))
+	if pt.CrashIsolate {
+		f, err := os.Create(base + ".cur")
+		if err == nil {
+			defer f.Close()
+			opt.OnExec = func(vec []int) {
+				b, _ := json.Marshal(vec)
+				b = append(b, '\n')
+				f.WriteAt(append(b, make([]byte, 8)...), 0)
+				f.Truncate(int64(len(b)))
+			}
+		}
+	}
 	st := nd.Explore(pt.Body, opt)
 	// confirm violations by replay
 	for sig, f := range st.Found {
@@ -157,7 +175,6 @@ func worker(id, tier, part string, i, n int, outdir string) int {
 			st.NondetErr = fmt.Sprintf("violation %s not reproducible: %v", sig, err)
 		}
 	}
-	base := filepath.Join(outdir, fmt.Sprintf("%s-%d", part, i))
 	os.WriteFile(base+".nt", nd.EncodeSet(st.NonTrivial), 0o644)
 	os.WriteFile(base+".states", nd.EncodeSet(st.States), 0o644)
 	b, _ := json.Marshal(workerOut{Stats: st, NT: base + ".nt", States: base + ".states"})
@@ -253,11 +270,16 @@ func check(id, tier string) int {
 		wg.Wait()
 		ps := nd.Stats{Outcomes: map[string]int64{}, NonTrivial: map[uint64]struct{}{}, States: map[uint64]struct{}{}, Found: map[string]*nd.Found{}, Exhaustive: true}
 		for i := 0; i < n; i++ {
+			base := filepath.Join(scratch, fmt.Sprintf("%s-%d", pt.Name, i))
 			if errs[i] != "" {
+				if f := crashFound(pt, base, errs[i]); f != nil {
+					cs := nd.Stats{Outcomes: map[string]int64{"worker-crash": 1}, NonTrivial: map[uint64]struct{}{}, States: map[uint64]struct{}{}, Found: map[string]*nd.Found{f.Sig: f}, Exhaustive: false, CapNote: "a worker process crashed inside the library; its shard was not completed"}
+					ps.Merge(&cs)
+					continue
+				}
 				broken = errs[i]
 				continue
 			}
-			base := filepath.Join(scratch, fmt.Sprintf("%s-%d", pt.Name, i))
 			b, err := os.ReadFile(base + ".json")
 			if err != nil {
 				broken = err.Error()
@@ -470,4 +492,44 @@ func replay(file string) int {
 	}
 	fmt.Println("property held on this execution")
 	return 0
+}
+
+// crashFound turns the crash of a CrashIsolate worker into a violation if the
+// crash happened inside the library under test.
+func crashFound(pt Part, base, stderr string) *nd.Found {
+	if !pt.CrashIsolate || !strings.Contains(stderr, "mellium.im/xmpp") {
+		return nil
+	}
+	b, err := os.ReadFile(base + ".cur")
+	if err != nil {
+		return nil
+	}
+	var vec []int
+	if json.Unmarshal(bytes.TrimSpace(b), &vec) != nil {
+		return nil
+	}
+	kind := "panic"
+	if strings.Contains(stderr, "fatal error:") {
+		kind = "fatal"
+	}
+	frame := ""
+	for _, line := range strings.Split(stderr, "\n") {
+		line = strings.TrimSpace(line)
+		if strings.HasPrefix(line, "mellium.im/xmpp") && frame == "" {
+			frame = line
+			if k := strings.Index(frame, "("); k > 0 && !strings.Contains(frame[:k], ".(") {
+				frame = frame[:k]
+			} else if k := strings.LastIndex(frame, "("); k > 0 {
+				frame = frame[:k]
+			}
+		}
+	}
+	first := ""
+	for _, line := range strings.Split(stderr, "\n") {
+		if strings.HasPrefix(line, "panic:") || strings.HasPrefix(line, "fatal error:") {
+			first = line
+			break
+		}
+	}
+	return &nd.Found{Violation: nd.Violation{Sig: "crash:" + kind + "@" + frame, Msg: "worker process crashed inside the library: " + first + "\n" + tail(stderr, 3000)}, Vector: vec, Count: 1}
 }
